@@ -59,6 +59,7 @@ _EMPTY_SUFFIX = ("::new", "::with_capacity", "::new_uninit", "::default", "::new
 _STORE_SUFFIX = {
     "::push": [1], "::push_back": [1], "::push_front": [1], "::insert": [1, 2], "::extend": [1],
     "::extend_from_slice": [1], "::append": [1], "::push_str": [1], "::resize": [2], "::fill": [1],
+    "::copy_from_slice": [1], "::clone_from_slice": [1],
 }
 
 
@@ -149,6 +150,8 @@ class Flow:
         self.extra = extra_transparent or {}
         # call_hook(flow, bb, term, name) -> list of transparent arg indices | "opaque" | None (default rules)
         self.call_hook = call_hook
+        self.deep_aggregates = False  # when True, a struct aggregate read as a whole also yields its operands' origins
+        self.keep_arrays = False  # when True, array aggregates also yield an ("agg", bb, j, "array") origin
         self._build_defs()
         self._rd_in = None
         self._memo = {}
@@ -438,6 +441,8 @@ class Flow:
                 return set()
             if desc.get("k") == "array":
                 out = set()
+                if self.keep_arrays:
+                    out.add(("agg", bb, j, "array"))
                 rest = tuple(pj[1:]) if pj and (pj[0][:1] in ("c", "i")) else tuple(pj)
                 for o in ops:
                     out |= self._operand_origins(o, rest, at, stack)
@@ -458,7 +463,7 @@ class Flow:
             else:
                 label = desc.get("k")
             out = {("agg", bb, j, label)}
-            if desc.get("k") == "tuple":
+            if desc.get("k") == "tuple" or self.deep_aggregates:
                 # a tuple read as a whole: collapse (zip/enumerate items, Try payloads)
                 for o in ops:
                     out |= self._operand_origins(o, (), at, stack)
@@ -622,6 +627,25 @@ class Flow:
         if ta and t["args"] and t["args"][ta[0]][0] != "k":
             return self.trail(t["args"][ta[0]][1], depth + 1) + names
         return names
+
+    def leaf_deps(self, op, at=None, depth=0):
+        """origins of an operand with arithmetic expanded: `bin`/`cast`/`other` origins are replaced by the
+        origins of their operands, so the result lists only params, constants, calls, aggregates"""
+        out = set()
+        for o in self.origins(op, at):
+            if o[0] in ("bin", "cast", "other") and depth < 12:
+                bb, j = o[1], o[2]
+                rv = self.body.stmts(bb)[j][2]
+                ops = []
+                if rv[0] == "bin":
+                    ops = [rv[2], rv[3]]
+                elif rv[0] in ("un", "cast"):
+                    ops = [rv[2]]
+                for x in ops:
+                    out |= self.leaf_deps(x, (bb, j), depth + 1)
+            else:
+                out.add(o)
+        return out
 
     # ------------------------------------------------------------ helpers for rules
     def call_origins_of_arg(self, bb, i):
